@@ -16,6 +16,7 @@ import (
 
 	"github.com/imroc/req/v3/internal/header"
 	"github.com/imroc/req/v3/internal/util"
+	"golang.org/x/net/http/httpguts"
 )
 
 type (
@@ -51,6 +52,49 @@ func createMultipartHeader(file *FileUpload, contentType string) textproto.MIMEH
 		hdr.Set(header.ContentType, contentType)
 	}
 	return hdr
+}
+
+var (
+	errBadMultipartContentType = errors.New("invalid Content-Type in multipart file upload")
+	errBadMultipartParamKey    = errors.New("invalid Content-Disposition parameter name in multipart file upload")
+	errMissingFieldName        = errors.New("missing field name in multipart form data")
+)
+
+// checkMultipartHeader refuses what would break out of the part header: a
+// Content-Type that is not a valid header field value (CR, LF and other
+// control characters) and a Content-Disposition parameter name that is not
+// a token. Parameter values need no check, they are quoted.
+func checkMultipartHeader(file *FileUpload, contentType string) error {
+	if !httpguts.ValidHeaderFieldValue(contentType) {
+		return errBadMultipartContentType
+	}
+	if file.ExtraContentDisposition != nil {
+		for _, kv := range file.ExtraContentDisposition.kv {
+			if !httpguts.ValidHeaderFieldName(kv.Key) {
+				return errBadMultipartParamKey
+			}
+		}
+	}
+	return nil
+}
+
+// writeMultipartField writes a plain form field. mime/multipart's WriteField
+// escapes only backslash and double quote in the name, so a name containing
+// CR LF would add lines to the part header; the name is quoted the way file
+// names are. A part without a name is dropped by form parsers: refuse it as
+// SetFileUpload refuses a file without ParamName.
+func writeMultipartField(w *multipart.Writer, name, value string) error {
+	if name == "" {
+		return errMissingFieldName
+	}
+	hdr := make(textproto.MIMEHeader)
+	hdr.Set("Content-Disposition", `form-data; name="`+quoteParamValue(name)+`"`)
+	pw, err := w.CreatePart(hdr)
+	if err != nil {
+		return err
+	}
+	_, err = pw.Write([]byte(value))
+	return err
 }
 
 func closeq(v interface{}) {
@@ -89,6 +133,9 @@ func writeMultipartFormFile(w *multipart.Writer, file *FileUpload, r *Request) e
 	ct := file.ContentType
 	if ct == "" {
 		ct = http.DetectContentType(cbuf)
+	}
+	if err = checkMultipartHeader(file, ct); err != nil {
+		return err
 	}
 	pw, err := w.CreatePart(createMultipartHeader(file, ct))
 	if err != nil {
@@ -136,14 +183,14 @@ func writeMultiPart(r *Request, w *multipart.Writer) error {
 		for i := 0; i <= maxIndex; i += 2 {
 			key := r.OrderedFormData[i]
 			value := r.OrderedFormData[i+1]
-			if err := w.WriteField(key, value); err != nil {
+			if err := writeMultipartField(w, key, value); err != nil {
 				return err
 			}
 		}
 	}
 	for k, vs := range r.FormData {
 		for _, v := range vs {
-			if err := w.WriteField(k, v); err != nil {
+			if err := writeMultipartField(w, k, v); err != nil {
 				return err
 			}
 		}
